@@ -49,6 +49,26 @@
 (*                       shifted function (all caps replaced)              *)
 (*   final_edit t d      final coefficient changed                         *)
 (*   drop_round          the query round is missing                        *)
+(*   layer_cap l t j     entry t of the cap of layer l changed; j = length *)
+(*                       of the Merkle paths of that tree, so the entry is *)
+(*                       read by the cosets c with c >> j = t.  j = 0 is   *)
+(*                       the sub-case "tree height = cap height": the path *)
+(*                       is EMPTY and  hash(leaf) = cap[coset index]  is   *)
+(*                       the whole LayerMerkle check (in an admissible     *)
+(*                       schedule only the LAST layer can be that low)     *)
+(*   init_cap l=oracle t j   same for the cap of an initial oracle (j = 0  *)
+(*                       needs lde_bits = cap height, i.e. no reduction)   *)
+(*   coset_forge t d     last layer: opened coset value t changed, layer   *)
+(*                       NOT re-committed, and the final polynomial forged *)
+(*                       (constant term) so that the fold of the edited    *)
+(*                       coset passes Final: only LayerMerkle reads the    *)
+(*                       difference at the sibling positions ("off" =      *)
+(*                       positions of other cosets, which now fail Final)  *)
+(* Merkle binding being abstract, an empty path is not a different case of *)
+(* the MODEL (the check is "opened = committed, path and cap intact"); it  *)
+(* is a case of the IMPLEMENTATION, so the catalogue carries j as a        *)
+(* scenario attribute and the driver refuses to run (tool error) unless    *)
+(* the replay contained j = 0 instances of every Merkle-only deviation.    *)
 (*                                                                         *)
 (* Batched variant (batch_fri/{prover,verifier,oracle}.rs): sc.e > 0 adds  *)
 (* a second instance of 2^AR-times smaller degree (polys2, bat2) whose     *)
@@ -106,7 +126,8 @@ Opened(cm, alpha) ==
 InitFail(cm, opn, i) ==       \* i = 1-based position; names of the failing InitMerkle checks
   {IName[o] : o \in {o \in Oracles :
       \/ \E p \in 1..NP : sc.orc[p] = o /\ opn[p][i] # cm[p][i]
-      \/ D.k = "init_path" /\ D.l = o /\ D.t = i - 1}}
+      \/ D.k = "init_path" /\ D.l = o /\ D.t = i - 1
+      \/ D.k = "init_cap" /\ D.l = o /\ (i - 1) \div 2 ^ D.j = D.t}}
 
 (* ---- fri_combine_initial ---- *)
 RECURSIVE CombB(_, _, _, _, _, _)
@@ -183,7 +204,7 @@ Prepare(l, pcIn, voldIn, failsIn) ==
       THEN Let(EvalOnLayer(pcd, l - 1), LAMBDA e : TLCEval([i \in 1..Len(e) |-> Add(e[i], D.d)]))
       ELSE EvalOnLayer(pcd, l - 1), LAMBDA V :
   Let(IF D.k = "coset_recommit" /\ D.l = l - 1 THEN Bump(V, D.t, D.d) ELSE V, LAMBDA Cm :
-  Let(IF D.k = "coset_edit" /\ D.l = l - 1 THEN Bump(Cm, D.t, D.d) ELSE Cm, LAMBDA Op :
+  Let(IF D.k \in {"coset_edit", "coset_forge"} /\ D.l = l - 1 THEN Bump(Cm, D.t, D.d) ELSE Cm, LAMBDA Op :
     [pc |-> pcd, op |-> Op,
      fails |-> TLCEval([i \in 1..N |->
         LET cur == (i - 1) \div 2 ^ SumAr(l - 1)          \* index in this layer
@@ -192,6 +213,7 @@ Prepare(l, pcIn, voldIn, failsIn) ==
            \cup (IF Op[cur + 1] # voldIn[cur + 1] THEN {CName[l]} ELSE {})
            \cup (IF \/ \E m \in 1..(2 ^ AR[l]) : Op[c * 2 ^ AR[l] + m] # Cm[c * 2 ^ AR[l] + m]
                     \/ D.k = "layer_path" /\ D.l = l - 1 /\ D.t = c
+                    \/ D.k = "layer_cap" /\ D.l = l - 1 /\ c \div 2 ^ D.j = D.t
                  THEN {MName[l]} ELSE {})])]))))
 VFold(opn, l, beta) ==
   TLCEval([c \in 1..LSize(l) |->
@@ -205,9 +227,14 @@ PosClass(i) ==      \* i 0-based
          LET cur == i \div 2 ^ SumAr(D.l)  ar == 2 ^ AR[D.l + 1]
          IN IF cur = D.t THEN "hitq" ELSE IF cur \div ar = D.t \div ar THEN "hits" ELSE "miss"
     [] D.k = "layer_path" -> IF i \div 2 ^ SumAr(D.l + 1) = D.t THEN "hit" ELSE "miss"
+    [] D.k = "layer_cap" -> IF (i \div 2 ^ SumAr(D.l + 1)) \div 2 ^ D.j = D.t THEN "hit" ELSE "miss"
+    [] D.k = "init_cap" -> IF i \div 2 ^ D.j = D.t THEN "hit" ELSE "miss"
+    [] D.k = "coset_forge" ->
+         LET cur == i \div 2 ^ SumAr(D.l)  ar == 2 ^ AR[D.l + 1]
+         IN IF cur = D.t THEN "hitq" ELSE IF cur \div ar = D.t \div ar THEN "hits" ELSE "off"
     [] D.k \in {"leaf_edit2", "leaf_recommit2"} -> IF i \div 2 ^ SumAr(E) = D.t THEN "hit" ELSE "miss"
     [] OTHER -> "hit"
-Classes == {"miss", "hit", "hitq", "hits"}
+Classes == {"miss", "hit", "hitq", "hits", "off"}
 
 (* ---- accounting ---- *)
 ZeroC == [t |-> 0, a |-> 0, gt |-> 0, ga |-> 0]
@@ -232,7 +259,10 @@ Leaf(beta) ==
   Let(gen /\ beta \notin DomainPoints(NL - 1), LAMBDA g :
   Let(FoldCoeffs(pc, AR[NL], beta), LAMBDA pcF :
   Let(VFold(op, NL, beta), LAMBDA vF :
-  Let(FinalCoeffs(pcF), LAMBDA fc :
+  Let(Let(FinalCoeffs(pcF), LAMBDA fc0 :
+          IF D.k = "coset_forge"      \* forged so that the fold of the edited coset passes Final
+          THEN Bump(fc0, 0, Sub(vF[(D.t \div 2 ^ AR[NL]) + 1], EvalPoly(fc0, XTab[NL][D.t \div 2 ^ AR[NL]])))
+          ELSE fc0), LAMBDA fc :
   Let(TLCEval([c \in 1..LSize(NL) |-> EvalPoly(fc, XTab[NL][c - 1]) # vF[c]]), LAMBDA ff :
     FoldSet(LAMBDA i, acc :
               AddPos(acc, cls[i],
@@ -299,7 +329,7 @@ Class == CASE D.k \in {"honest", "degree_n", "degree_n2", "leaf_kernel_recommit"
            [] D.k \in {"claim_adaptive", "high_degree", "high_degree2"} -> "partial"
            [] OTHER -> "reject"
 Done == ph = "done"
-HitClasses == Classes \ {"miss"}
+HitClasses == Classes \ {"miss", "off"}
 (* completeness: the honest proof passes every check at every position for every challenge *)
 Completeness == (Done /\ Class = "accept") =>
                   \A c \in Classes : res.n[c].a = res.n[c].t /\ res.sets[c] \subseteq {{}}
